@@ -57,3 +57,18 @@ def matExtent (p : MatPattern) : Nat × Nat :=
   (matCells p).foldl (fun acc c => (max acc.1 c.1, max acc.2 c.2.1)) (0, 0)
 
 end Pm
+
+/-! ### port graphs -/
+namespace Pm
+
+/-- All injective maps from `dom` into `cod` (as association lists) that satisfy `ok` on every
+partial assignment (pruned backtracking). Used as a brute-force embedding oracle. -/
+def injections (ok : List (Nat × Nat) → Bool) : List Nat → List Nat → List (Nat × Nat) →
+    List (List (Nat × Nat))
+  | [], _, acc => [acc]
+  | d :: ds, cod, acc =>
+    (cod.filter fun c => !(acc.any fun p => p.2 = c)).flatMap fun c =>
+      let acc' := acc ++ [(d, c)]
+      if ok acc' then injections ok ds cod acc' else []
+
+end Pm
